@@ -1,6 +1,7 @@
 (* C02 - Queue output is a faithful, chunk-invariant timeline of the notified trials.
    Property theorems only; every proof is `exact <lemma of Queue/ProofsC02.v>`. *)
 From PV Require Import Queue.Model Queue.Spec Queue.ProofsC02.
+From PV Require Import Queue.SpecLists Queue.ProofsC02Lists.
 
 (* For every queue class, every stimulus set and EVERY sequence of buffer requests (no pause):
    the concatenated output is the rendering of the "added" notifications (each stimulus from its
@@ -38,4 +39,41 @@ Example C02_ex :
   let es := [mk_entry 2 3 KArray [1] true; mk_entry 1 2 KGen [0] true] in
   wf_queue PFifo es = true /\ forallb progress_entry es = true /\
   timeline_test PFifo es [] [] [2; 5; 0; 9] = true /\ split_test PFifo es [] [] [2] 3 4 = true.
+Proof. vm_compute. repeat split; reflexivity. Qed.
+
+(* ---- per-trial delay LISTS (finite iterators, e_cyclic = false; Queue/SpecLists.v) ----
+   The same timeline and chunk invariance for stimuli whose delays are a list consumed one element per
+   presentation: spacing_ok_l reads the k-th delay of the list for the k-th presentation (and the cycled
+   scalar otherwise).  A run that exhausts a list is None in the model (StopIteration), so the theorems
+   are conditional on the run returning Some, like the ones above.  wf_queue implies wf_queue_l
+   (ProofsC02Lists.wf_queue_l_of_wf), so these subsume the scalar case. *)
+Theorem C02_timeline_lists : forall p es ch pm ns q out ev,
+  wf_queue_l p es = true -> forallb (fun n => 0 <=? n) ns = true ->
+  pops all_rep (qinit p es ch pm) ns = Some (q, out, ev) ->
+  out = render es (added_of ev) (sumZ ns) /\ q_samples q = sumZ ns /\ spacing_ok_l es (added_of ev) = true.
+Proof. exact timeline_l. Qed.
+Print Assumptions C02_timeline_lists.
+
+Theorem C02_chunk_invariant_lists : forall p es ch pm pre a b q o0 e0 q1 o1 e1,
+  wf_queue_l p es = true -> forallb progress_entry es = true ->
+  forallb (fun n => 0 <=? n) (a :: b :: pre) = true ->
+  pops all_rep (qinit p es ch pm) pre = Some (q, o0, e0) ->
+  pop_buffer all_rep q (a + b) = Some (q1, o1, e1) ->
+  exists q2 o2 e2, pops all_rep q [a; b] = Some (q2, o2, e2) /\
+    o1 = o2 /\ added_of e1 = added_of e2 /\ q_samples q1 = q_samples q2 /\ q_empty q1 = q_empty q2 /\
+    map e_trials (q_data q1) = map e_trials (q_data q2).
+Proof. exact chunk_invariant_l. Qed.
+Print Assumptions C02_chunk_invariant_lists.
+
+(* a genuine list (not cyclic): well-formed for the list theorems only, the run succeeds and notifies
+   three trials spaced by 1 then 4 then 2; a list shorter than the trials makes the run None *)
+Example C02_lists_ex :
+  let es := [mk_entry 2 3 KArray [1; 4] false; mk_entry 1 0 KGen [2] false] in
+  wf_queue_l PFifo es = true /\ wf_queue PFifo es = false /\ forallb progress_entry es = true /\
+  match pops all_rep (qinit PFifo es [] []) [2; 0; 9; 4] with
+  | Some (_, _, ev) => eqb_list eqb_pairZ (added_of ev) [(0, 0); (0, 4); (1, 11)]
+  | None => false
+  end = true /\
+  timeline_l_test PFifo es [] [] [2; 0; 9; 4] = true /\
+  pops all_rep (qinit PFifo [mk_entry 3 1 KArray [1; 1] false] [] []) [20] = None.
 Proof. vm_compute. repeat split; reflexivity. Qed.
